@@ -265,6 +265,11 @@ func (g *histGen) idpForSession(nonce string, login bool, sid string) idpAnswer 
 			fmt.Sprintf(`{"id_token":%q,"access_token":%q,"token_type":["Bearer"]}`, a.ID, a.Access),
 			fmt.Sprintf(`[{"id_token":%q}]`, a.ID),
 			fmt.Sprintf(`{"id_token":%q,"expires_in":1e400}`, a.ID),
+			// token members of the wrong JSON type (code that looks into the answer before decoding it must survive them)
+			fmt.Sprintf(`{"id_token":%q,"access_token":12345,"token_type":"Bearer","expires_in":3600}`, a.ID),
+			fmt.Sprintf(`{"id_token":{"raw":%q},"access_token":%q,"token_type":"Bearer","expires_in":3600}`, a.ID, a.Access),
+			fmt.Sprintf(`{"id_token":%q,"access_token":%q,"refresh_token":[null],"token_type":"Bearer","expires_in":3600}`, a.ID, a.Access),
+			fmt.Sprintf(`{"id_token":%q,"access_token":%q,"refresh_token":false,"device_secret":true,"token_type":"Bearer","expires_in":3600}`, a.ID, a.Access),
 		})
 		g.s.secrets = append(g.s.secrets, "REFRESH-marker-raw", a.ID, a.Access)
 		return idpAnswer{Kind: "raw", Raw: raw}
